@@ -1548,7 +1548,9 @@ namespace bluetoe {
     {
         const std::size_t last_index = last_handle_index( ending_handle );
 
-        for ( std::size_t index = handle_mapping::first_index_by_handle( starting_handle ); index <= last_index; ++index )
+        // if the ending handle lies in a gap between two attributes, last_index denotes the first attribute behind the range
+        for ( std::size_t index = handle_mapping::first_index_by_handle( starting_handle );
+              index <= last_index && handle_mapping::handle_by_index( index ) <= ending_handle; ++index )
         {
             const details::attribute attr = attribute_at( index );
 
